@@ -835,7 +835,7 @@ def model_cfg(n: int, variant: str, k: int, instant: bool, dev: bool, gap: bool,
 INV = ["TypeOK", "AtMostOnce", "QuiescentAllReported"]
 # (enumerated schedules, random schedules) per scenario: (quick, thorough); sized by the cost of one
 # execution (docker ~10 ms ... aws_batch ~60 ms)
-BUDGET = {"docker": ((140, 70), (700, 300)), "aws_glue": ((90, 50), (400, 200)), "k8s": ((60, 30), (300, 150)),
+BUDGET = {"docker": ((100, 50), (700, 300)), "aws_glue": ((70, 40), (400, 200)), "k8s": ((60, 30), (300, 150)),
           "gcp_batch": ((40, 20), (160, 80)), "aws_batch": ((40, 20), (160, 80))}
 
 
@@ -874,37 +874,12 @@ def run(ctx: Ctx) -> None:
             pool.submit(nm, M, model_cfg(n, v, 3, inst, False, False, INV, ("Live",)), workers=W, **kw)
             clean.append(nm)
     live_ctl = []
-    for v in variants:
+    for v in ([] if ctx.quick else variants):     # liveness control of the as-built model: thorough tier
         nm = f"as-built {v}: liveness control"
         pool.submit(nm, M, model_cfg(2, v, 3, True, True, True, ["TypeOK", "AtMostOnce"], ("Live",)), workers=1, **kw)
         live_ctl.append(nm)
-    cexs = {}
-    for nm, v, dn in cex_names:
-        r = pool.result(nm)
-        ctx.add_tlc(expect_violation(r, "QuiescentAllReported", f"Monitor.tla {v} as built ({dn})"))
-        labels = cex_labels(r)
-        ctx.require(len(labels) > 5, f"could not read the counterexample {nm}")
-        cexs[(v, dn)] = labels
-    ctx.note("model_counterexamples", {f"{v}:{dn}": " ".join(lb) for (v, dn), lb in cexs.items()})
-
     col = Collector(ctx)
     phase = {"cex_models": round(ctx.elapsed(), 1)}
-
-    # ---- 2. spec -> code: replay TLC's counterexamples by anchors --------------------------------
-    replayed = {}
-    for nm, ad in ads.items():
-        for (v, dn), labels in cexs.items():
-            if v != ad.variant:
-                continue
-            dirs = [ad.match[lb] for lb in labels if lb in ad.match]
-            ch = tc.DirectedChooser(dirs)
-            scn = scenario(nm, 2)
-            runx = execute(ctx, ad, scn, ch)
-            replayed[f"{nm}:{dn}"] = {"directives_followed": ch.k, "of": len(dirs),
-                                      "last_event": runx["events"][-1]["e"], "reports": runx["nrep"]}
-            col.add(ad, scn, runx, f"tlc-counterexample:{v}:{dn}")
-    ctx.note("counterexample_replay", replayed)
-
     # ---- 3. code -> spec: bounded pre-emption enumeration + seeded random schedules ---------------
     bound = ctx.pick(2, 2)
     explored = {}
@@ -928,6 +903,31 @@ def run(ctx: Ctx) -> None:
                 col.add(ad, scn, runx, f"random:{seed}")
     ctx.note("schedules_enumerated", explored)
     ctx.note("preemption_bound", bound)
+    cexs = {}
+    for nm, v, dn in cex_names:
+        r = pool.result(nm)
+        ctx.add_tlc(expect_violation(r, "QuiescentAllReported", f"Monitor.tla {v} as built ({dn})"))
+        labels = cex_labels(r)
+        ctx.require(len(labels) > 5, f"could not read the counterexample {nm}")
+        cexs[(v, dn)] = labels
+    ctx.note("model_counterexamples", {f"{v}:{dn}": " ".join(lb) for (v, dn), lb in cexs.items()})
+
+
+    # ---- 2. spec -> code: replay TLC's counterexamples by anchors --------------------------------
+    replayed = {}
+    for nm, ad in ads.items():
+        for (v, dn), labels in cexs.items():
+            if v != ad.variant:
+                continue
+            dirs = [ad.match[lb] for lb in labels if lb in ad.match]
+            ch = tc.DirectedChooser(dirs)
+            scn = scenario(nm, 2)
+            runx = execute(ctx, ad, scn, ch)
+            replayed[f"{nm}:{dn}"] = {"directives_followed": ch.k, "of": len(dirs),
+                                      "last_event": runx["events"][-1]["e"], "reports": runx["nrep"]}
+            col.add(ad, scn, runx, f"tlc-counterexample:{v}:{dn}")
+    ctx.note("counterexample_replay", replayed)
+
     okr = next((r for _, s, r, src in col.runs if not r["errs"] and r["npre"] > 0 and r["events"][-1]["e"] == "quiesce"), None)
     if okr:
         ctx.sample({"source": "enumeration", "schedule": "".join(s[1] for s in okr["schedule"]),
